@@ -45,6 +45,13 @@ structure RObj where
   alive : Bool
   ext : Nat
   elems : List Nat := []     -- element tokens of a library buffer (finalised when it is destroyed)
+  cap : Nat := 0             -- capacity of a library buffer in bytes
+  deriving Repr, DecidableEq, Inhabited
+
+/-- element callback of a library buffer: finalised / copy-constructed token -/
+inductive ElEv where
+  | fini (t : Nat)
+  | copy (t : Nat)
   deriving Repr, DecidableEq, Inhabited
 
 /-- what happened to one object during an operation -/
@@ -59,7 +66,7 @@ structure St where
   objs : List RObj := []
   hnd : List (Option Nat) := [none, none, none]
   ev : List Ev := []
-  elog : List Nat := []       -- element tokens finalised in this operation
+  elog : List ElEv := []      -- element callbacks of this operation, in order
   deriving Repr, DecidableEq, Inhabited
 
 def St.obj (s : St) (o : Nat) : RObj := s.objs.getD o default
@@ -88,7 +95,7 @@ def St.unref (s : St) (o : Nat) : St :=
     else
       { s with objs := s.objs.set o { ob with count := r.1, alive := false },
                ev := s.ev.set o { e with unref := e.unref + 1, destroyed := true },
-               elog := s.elog ++ ob.elems }
+               elog := s.elog ++ ob.elems.map ElEv.fini }
 
 /-- handles of metatype objects hold a pointer, handles of buffers an array -/
 def OKind.isMeta : OKind → Bool
@@ -147,6 +154,35 @@ def St.assignArr (s : St) (h : Nat) (src : Option Nat) : St × RRet :=
   else
     (({ (s.retain src).1 with hnd := (s.retain src).1.hnd.set h src } : St).release (s.hnd.getD h none),
      .ok ((if (s.hnd.getD h none).isSome then 2 else 0) + (if src.isSome then 1 else 0)))
+
+/-- `_mpt_buffer_alloc(len, ..)`: usable bytes of a heap buffer asked for `len` bytes (64 byte header, the
+    allocation is a multiple of 128) -/
+def capOf (len : Nat) : Nat := ((len + 63) / 128 + 1) * 128 - 64
+
+/-- the private copy a detach hands out: object `o` gives up one reference (`clear`: its elements were moved,
+    not copied), a new buffer with the elements and one reference is appended and stored in handle `h` -/
+def St.relocate (s : St) (h o : Nat) (newcap : Nat) (clear : Bool) : St :=
+  let ob := s.obj o
+  let s1 : St :=
+    if clear then { s with objs := s.objs.set o { ob with elems := [] } }
+    else { s with elog := s.elog ++ ob.elems.map ElEv.copy }
+  let s2 := s1.unref o
+  let nb : RObj := { kind := .rbuf, count := 1, alive := true, ext := 0, elems := ob.elems, cap := newcap }
+  let s3 : St := { s2 with objs := s2.objs ++ [nb], ev := s2.ev ++ [{}] }
+  { s3 with hnd := s3.hnd.set h (some s2.objs.length) }
+
+/-- `buf->_vptr->detach(buf, len * 8)` on the library heap buffer behind handle `h` (elements of 8 bytes):
+    the state and whether a buffer was returned -/
+def St.detach (s : St) (h len : Nat) : St × Bool :=
+  match s.hnd.getD h none with
+  | none => (s, false)
+  | some o =>
+    let ob := s.obj o
+    if ob.count < 2 then
+      if len * 8 ≤ ob.cap then (s, true)                                   -- unique and large enough: kept
+      else (s.relocate h o (capOf (len * 8)) true, true)                   -- unique: content moved
+    else if ob.elems.length * 8 > capOf (len * 8) then (s, false)          -- copy does not fit: refused, still shared
+    else (s.relocate h o (capOf (len * 8)) false, true)                    -- shared: content copied
 
 /-- the kind of handle an object needs -/
 def St.isMetaObj (s : St) (o : Nat) : Bool := (s.obj o).kind.isMeta
